@@ -165,6 +165,10 @@ def _gen_history(rng, cls, w, h, torus, n, length, mode, nlayers=0):
                 px, py = posn[a]
                 d = rng.randint(0, 2)
                 cells += [[px + d, py], [px - d, py], [px, py + d]]
+            if cells and rng.random() < 0.06:
+                # the length crosses an algorithm-switch threshold: pad with one far filler (duplicates are allowed)
+                filler = [(posn[a][0] + w // 2) % w, (posn[a][1] + h // 2) % h]
+                cells = cells + [filler] * (rng.choice(THRESHOLDS[3:]) - len(cells))
             sel = rng.choice(["random", "random", "closest", "closest", "closest", "bad"])
             he = rng.choice([None, None, "warning", "error"])
             if rng.random() < 0.85 and sel == "bad":
@@ -217,6 +221,8 @@ def _gen_history(rng, cls, w, h, torus, n, length, mode, nlayers=0):
             elif kd == "cell_list":
                 single1 = rng.random() < 0.35
                 cl = [[rng.randrange(w), rng.randrange(h)] for _ in range(1 if single1 else rng.randint(0, 4))]
+                if not single1 and rng.random() < 0.05:
+                    cl = cl + [[rng.randrange(w), rng.randrange(h)]] * rng.choice(THRESHOLDS[3:])
                 if placed and rng.random() < 0.6:
                     cl[:1] = [list(posn[rng.choice(placed)])]
                 ops.append([kd, cl, single1, rng.choice(["get", "iter"])])
@@ -241,9 +247,51 @@ def _mk(cls, w, h, torus, layers, n, ops, rseed=0):
     return {"cls": cls, "w": w, "h": h, "torus": bool(torus), "layers": int(layers), "n": n, "rseed": rseed, "ops": ops}
 
 
+THRESHOLDS = [1, 2, 8, 16, 17, 32, 33, 64, 65, 100, 257]
+
+
+def _threshold_cases(classes=None):
+    """list-taking calls whose LENGTH crosses the thresholds at which an implementation might switch algorithm: long offer
+    lists for move_agent_to_one_of (closest / random; duplicates; fillers far from the agent; offers that are out of range:
+    negative, >= size, > 2 * size - wrapped on a torus, rejected if chosen on a bounded grid), long cell lists for
+    get/iter_cell_list_contents and grid[(x1, y1), ...]"""
+    out = []
+    w, h = 5, 4
+    for cls in (classes or CLASSES):
+        for torus in (False, True):
+            for sel in ("closest", "random"):
+                ops = [["place", 1, 0, 0], ["place", 2, 3, 2]]
+                for n in THRESHOLDS:
+                    if torus:
+                        # (2w-1, 0) wraps to (w-1, 0): one step from (0, 0); (2, 0) is two steps; (-w-1, 2h+1) wraps to (w-1, 1)
+                        heads = [[2 * w - 1, 0], [2, 0], [-w - 1, 2 * h + 1]]
+                    else:
+                        heads = [[1, 0], [2, 0], [w + 5, 0]] if sel == "closest" else [[1, 0], [2, 0], [0, 1]]
+                    filler = [2, 2]
+                    offers = (heads + [filler] * n)[:max(n, 1)] if n < len(heads) else heads[:2] + [filler] * (n - len(heads)) + heads[2:]
+                    ops.append(["move_one_of", 1, offers, sel, rng_free_he(n)])
+                    ops.append(["move", 1, 0, 0])
+                    if n in (33, 257):
+                        ops.append(["move_one_of", 1, [filler] * n, sel, None])      # all offers equal
+                        ops.append(["move", 1, 0, 0])
+                ops += [["move_one_of", 1, [], sel, he] for he in (None, "warning", "error")]
+                out.append(_mk(cls, w, h, torus, 0, 2, ops, rseed=7))
+            # long cell lists / coordinate lists
+            ops = [["place", 1, 0, 0], ["place", 2, 3, 2]]
+            for n in THRESHOLDS:
+                ops.append(["cell_list", [[3, 2]] * (n - 1) + [[0, 0]], False, "get" if n % 2 else "iter"])
+                ops.append(["ilist", [[0, 0]] + [[3 + (w if torus else 0), 2]] * (n - 1)])
+            out.append(_mk(cls, w, h, torus, 0, 2, ops))
+    return out
+
+
+def rng_free_he(n):
+    return [None, "warning", "error"][n % 3]
+
+
 def _fixed_cases():
     """the corner cases the quantifier names, spelled out (all four classes)"""
-    out = []
+    out = _threshold_cases()
     for cls in CLASSES:
         for torus in (False, True):
             # mask / empties after one placement, never / before / after reading empties
@@ -355,7 +403,8 @@ def gen_cases(rng, tier):
         cases.append(k)
     cases.append({"cls": "NetworkGrid", "nodes": [3, 0, 7], "edges": [[0, 3]], "n": 3, "ops": [
         ["place", 1, 0], ["place", 2, 0], ["place", 3, 9], ["is_empty", 0], ["is_empty", 7], ["move", 1, 7], ["cell_list", [7, 0, 7]],
-        ["all"], ["agents"], ["move", 2, 11], ["all"], ["remove", 1], ["remove", 1], ["place", 2, 3], ["cell_list", []], ["agents"]]})
+        ["all"], ["agents"], ["move", 2, 11], ["all"], ["remove", 1], ["remove", 1], ["place", 2, 3], ["cell_list", []], ["agents"]]
+        + [["cell_list", [3] * (n - 1) + [0]] for n in THRESHOLDS]})
     for _ in range(120 if tier == "quick" else 1500):
         cases.append(_gen_net(rng))
     return cases
@@ -378,6 +427,9 @@ def enumerate_cases(tier, broken=False):
     on 2x1 (and 2x2 when thorough) grids with 2 agents, SingleGrid and MultiGrid (on 2x1 all four classes when
     thorough), torus on/off,
     started from three placements (nothing placed / one placed / both placed)."""
+    if broken:
+        for k in _threshold_cases():
+            yield k
     depth = 3
     shapes = [(2, 2), (2, 1)] if tier == "thorough" else [(2, 1)]
     classes = CLASSES if tier == "thorough" else ["SingleGrid", "MultiGrid"]
@@ -1291,6 +1343,32 @@ _SEL = {"random": "SelRandom", "closest": "SelClosest"}
 _HE = {None: "HNone", "warning": "HWarn", "error": "HError"}
 
 
+def _runs(items, show):
+    """a Gallina list term for a (possibly long) list: runs of >= 4 equal consecutive items become `repeat x n`"""
+    if len(items) <= 12:
+        return L.lst([show(x) for x in items])
+    segs, plain, i = [], [], 0
+    while i < len(items):
+        j = i
+        while j < len(items) and items[j] == items[i]:
+            j += 1
+        if j - i >= 4:
+            if plain:
+                segs.append(L.lst(plain))
+                plain = []
+            segs.append(f"repeat {show(items[i])} {j - i}%nat")
+        else:
+            plain += [show(x) for x in items[i:j]]
+        i = j
+    if plain:
+        segs.append(L.lst(plain))
+    return "(" + " ++ ".join(segs) + ")"
+
+
+def _clist(cells):
+    return _runs([tuple(c) for c in cells], L.zpair)
+
+
 def _coq_op(op):
     k = op[0]
     if k == "place":
@@ -1307,7 +1385,7 @@ def _coq_op(op):
         return f"MoveToEmpty {L.z(op[1])} {L.b(op[2])} {L.zpair((op[3], op[4]))}"
     if k == "move_one_of":
         out = (op[5], op[6]) if len(op) >= 7 else (0, 0)
-        return (f"MoveToOneOf {L.z(op[1])} {L.lst([L.zpair(c) for c in op[2]])} {_SEL.get(op[3], 'SelBad')} "
+        return (f"MoveToOneOf {L.z(op[1])} {_clist(op[2])} {_SEL.get(op[3], 'SelBad')} "
                 f"{_HE.get(op[4], 'HNone')} {L.zpair(out)}")
     def oz(v):
         return "None" if v is None else f"(Some {L.z(v)})"
@@ -1318,7 +1396,7 @@ def _coq_op(op):
     if k == "col":
         return f"ReadForm (FCol {L.z(op[1])})"
     if k == "ilist":
-        return f"ReadForm (FList {L.lst([L.zpair(c) for c in op[1]])})"
+        return f"ReadForm (FList {_clist(op[1])})"
     if k == "slice_y":
         return f"ReadForm (FSliceY {L.z(op[1])} {oz(op[2])} {oz(op[3])})"
     if k == "slice_x":
@@ -1326,7 +1404,7 @@ def _coq_op(op):
     if k == "slice_xy":
         return f"ReadForm (FSliceXY {oz(op[1])} {oz(op[2])} {oz(op[3])} {oz(op[4])})"
     if k == "cell_list":
-        return f"ReadForm (FCellList {L.lst([L.zpair(c) for c in op[1]])} {L.b(op[2])})"
+        return f"ReadForm (FCellList {_clist(op[1])} {L.b(op[2])})"
     if k == "lset":
         return f"LayerOp (LSet {L.z(op[1])} {L.zpair((op[2], op[3]))} {L.z(op[4])})"
     if k == "lfill":
@@ -1367,7 +1445,7 @@ def _coq_nop(op):
     if k == "is_empty":
         return f"NIsEmpty {L.z(op[1])}"
     if k == "cell_list":
-        return f"NCellList {L.zlist(op[1])}"
+        return f"NCellList {_runs(list(op[1]), L.z)}"
     return {"all": "NAll", "agents": "NAgents"}[k]
 
 
